@@ -223,6 +223,79 @@ impl Diagram {
         (class, idx.len())
     }
 
+    /// Parses a PD code (slot 0 = incoming under strand, counter-clockwise) into the directed
+    /// structure.  Over-strand directions are inferred from the under strands; a component that
+    /// never passes under gets the direction that makes its first over slot (in crossing order)
+    /// run 3 -> 1.  Returns `None` if the code is not a consistently oriented diagram.
+    /// Also returns the label of every edge id.
+    pub fn from_pd(code: &[[usize; 4]]) -> Option<(Diagram, Vec<usize>)> {
+        let n = code.len();
+        // the two darts of every label
+        let mut ends: BTreeMap<usize, Vec<usize>> = BTreeMap::new();
+        for (c, x) in code.iter().enumerate() {
+            for (s, &l) in x.iter().enumerate() {
+                ends.entry(l).or_default().push(4 * c + s);
+            }
+        }
+        if ends.values().any(|v| v.len() != 2) {
+            return None;
+        }
+        let other = |dart: usize| -> usize {
+            let v = &ends[&code[dart / 4][dart % 4]];
+            if v[0] == dart {
+                v[1]
+            } else {
+                v[0]
+            }
+        };
+        // out[dart] = Some(true) if the dart is outgoing
+        let mut out: Vec<Option<bool>> = vec![None; 4 * n];
+        let mut stack = vec![];
+        for c in 0..n {
+            out[4 * c] = Some(false);
+            out[4 * c + 2] = Some(true);
+            stack.push(4 * c);
+            stack.push(4 * c + 2);
+        }
+        let mut next_free = 0;
+        loop {
+            while let Some(d) = stack.pop() {
+                let v = out[d].unwrap();
+                // the opposite slot of the same strand has the opposite role
+                let (c, s) = (d / 4, d % 4);
+                for (e, val) in [(4 * c + (s + 2) % 4, !v), (other(d), !v)] {
+                    match out[e] {
+                        None => {
+                            out[e] = Some(val);
+                            stack.push(e);
+                        }
+                        Some(x) if x != val => return None,
+                        _ => {}
+                    }
+                }
+            }
+            // a component that never passes under: pick a direction
+            while next_free < n && out[4 * next_free + 1].is_some() {
+                next_free += 1;
+            }
+            if next_free == n {
+                break;
+            }
+            out[4 * next_free + 1] = Some(true); // over runs 3 -> 1
+            stack.push(4 * next_free + 1);
+        }
+        let dir: Vec<bool> = (0..n).map(|c| out[4 * c + 1] == Some(true)).collect();
+        let mut d = Diagram { n, dir, partner: vec![0; 4 * n] };
+        for x in 0..4 * n {
+            d.partner[x] = other(x);
+        }
+        if !d.well_formed() {
+            return None;
+        }
+        let labels: Vec<usize> = d.out_darts().iter().map(|&o| code[o / 4][o % 4]).collect();
+        Some((d, labels))
+    }
+
     // ---- moves ---------------------------------------------------------------------------------
 
     /// switches over/under at crossing c (slots are re-based at the new under strand)
@@ -560,45 +633,67 @@ pub fn khovanov<T: RefEuclid>(d: &Diagram, h: &T, t: &T, base_edge: Option<usize
             }
         }
     }
-    let homology_of = |din: Option<&RMat<T>>, dout: Option<&RMat<T>>, dim: usize| -> Module<T> {
-        let rk_in = din.map(|m| m.rank()).unwrap_or(0);
-        let rk_out = dout.map(|m| m.rank()).unwrap_or(0);
-        let tors = din.map(|m| m.invariant_factors_by_elimination().into_iter().filter(|x| !x.is_unit()).collect()).unwrap_or_default();
-        Module { rank: dim - rk_in - rk_out, tors }
+    // rank(d) = number of invariant factors; torsion of H = non-unit invariant factors of d_in
+    let module_of = |fin: &[T], fout: &[T], dim: usize| -> Module<T> {
+        Module { rank: dim - fin.len() - fout.len(), tors: fin.iter().filter(|x| !x.is_unit()).cloned().collect() }
     };
-    let mut total = BTreeMap::new();
-    for &i in &degs {
-        let dim = gens.get(&i).map(|v| v.len()).unwrap_or(0);
-        let m = homology_of(dmat.get(&(i - 1)).filter(|m| m.m == dim), dmat.get(&i).filter(|m| m.n == dim), dim);
-        if !m.is_zero() {
-            total.insert(i, m);
-        }
-    }
+    let none: Vec<T> = vec![];
     let bigraded = if h.is_zero() && t.is_zero() {
+        // d preserves q: work block by block
         let mut big = BTreeMap::new();
+        let mut factors: BTreeMap<(i64, i64), Vec<T>> = BTreeMap::new(); // of d: C^{i,q} -> C^{i+1,q}
+        let mut dims: BTreeMap<(i64, i64), usize> = BTreeMap::new();
         for &i in &degs {
             let empty = vec![];
             let here = gens.get(&i).unwrap_or(&empty);
-            let prev = gens.get(&(i - 1)).unwrap_or(&empty);
             let next = gens.get(&(i + 1)).unwrap_or(&empty);
             let mut qs: Vec<i64> = here.iter().map(|g| g.q).collect();
             qs.sort();
             qs.dedup();
             for q in qs {
                 let sel = |v: &Vec<CubeGen>| -> Vec<usize> { v.iter().enumerate().filter(|(_, g)| g.q == q).map(|(k, _)| k).collect() };
-                let (hs, ps, ns) = (sel(here), sel(prev), sel(next));
-                let din = dmat.get(&(i - 1)).filter(|m| m.m == here.len()).map(|m| m.submat(&hs, &ps));
-                let dout = dmat.get(&i).filter(|m| m.n == here.len()).map(|m| m.submat(&ns, &hs));
-                let m = homology_of(din.as_ref(), dout.as_ref(), hs.len());
-                if !m.is_zero() {
-                    big.insert((i, q), m);
+                let (hs, ns) = (sel(here), sel(next));
+                dims.insert((i, q), hs.len());
+                if let Some(m) = dmat.get(&i).filter(|m| m.n == here.len()) {
+                    if !ns.is_empty() {
+                        factors.insert((i, q), m.submat(&ns, &hs).invariant_factors_by_elimination());
+                    }
                 }
+            }
+        }
+        for (&(i, q), &dim) in &dims {
+            let m = module_of(factors.get(&(i - 1, q)).unwrap_or(&none), factors.get(&(i, q)).unwrap_or(&none), dim);
+            if !m.is_zero() {
+                big.insert((i, q), m);
             }
         }
         Some(big)
     } else {
         None
     };
+    let mut total = BTreeMap::new();
+    if let Some(big) = &bigraded {
+        // total homology = direct sum over q
+        for (&(i, _), m) in big {
+            let e = total.entry(i).or_insert(Module { rank: 0, tors: vec![] });
+            e.rank += m.rank;
+            e.tors.extend(m.tors.iter().cloned());
+        }
+    } else {
+        let mut factors: BTreeMap<i64, Vec<T>> = BTreeMap::new();
+        for (&i, m) in &dmat {
+            if m.m > 0 && m.n > 0 {
+                factors.insert(i, m.invariant_factors_by_elimination());
+            }
+        }
+        for &i in &degs {
+            let dim = gens.get(&i).map(|v| v.len()).unwrap_or(0);
+            let m = module_of(factors.get(&(i - 1)).unwrap_or(&none), factors.get(&i).unwrap_or(&none), dim);
+            if !m.is_zero() {
+                total.insert(i, m);
+            }
+        }
+    }
     KhTable { total, bigraded }
 }
 
@@ -685,6 +780,19 @@ mod tests {
                     assert!(k.well_formed() && k.is_planar(), "r1 not planar");
                     assert_eq!(k.jones(), t.jones());
                     assert_eq!(k.components().len(), 1);
+                }
+            }
+        }
+        for d in all_planar_diagrams(3) {
+            let (d2, labels) = Diagram::from_pd(&d.pd()).expect("own PD parses");
+            assert_eq!(d2.partner, d.partner);
+            assert_eq!(d2.pd_with(&|k| labels[k]), d.pd());
+            // directions agree except possibly on components that never pass under
+            let cc = d.crossing_components();
+            let under: std::collections::BTreeSet<usize> = cc.iter().map(|x| x.0).collect();
+            for c in 0..3 {
+                if under.contains(&cc[c].1) {
+                    assert_eq!(d.dir[c], d2.dir[c]);
                 }
             }
         }
